@@ -6,7 +6,7 @@ from props import e1, c07
 PROP = "C12"
 DIR = None
 T = {"a.txt": b"A", "x.tmp": b"X0", "y.tmp": b"Y0", ".DS_Store": b"finder", "sub": DIR, "sub/s.txt": b"S", "sub/x.tmp": b"SX",
-     "d": DIR, "d/c.txt": b"C", "d/x.tmp": b"DX", "d/sub": DIR, "d/sub/t.txt": b"T", "patterns.lst": b"*.tmp\nsub/\n"}
+     "d": DIR, "d/c.txt": b"C", "d/x.tmp": b"DX", "d/sub": DIR, "d/sub/t.txt": b"T", "patterns.lst": b"*.tmp\n\nsub/"}
 PSETS = [[], ["x.tmp"], ["*.tmp"], ["sub/"], ["sub"], ["*.tmp", "sub/"], ["x.tmp", "x.tmp"], ["y.tmp", "*.tmp"]]
 
 
